@@ -260,3 +260,10 @@ Fixpoint no_vml_outside (st : cstate) (ts : list tok) : bool :=
        | _, _ => true
        end) && no_vml_outside st' r
   end.
+
+(* the character data a reading shows, in order *)
+Definition view_texts (v : view_kind) (ts : list tok) : option (list bytes) :=
+  match view v Closed ts with
+  | Some (es, _) => Some (flat_map (fun e => match e with EText s => [s] | _ => [] end) es)
+  | None => None
+  end.
